@@ -344,25 +344,14 @@ def r2_roles(ctx, s):
     ctx.ob("R2.rotation-source", SUP, "superimpose", ast.unparse(a1),
            isinstance(a1, ast.Name) and call_name(d.get(a1.id, [ast.Constant(0)])[0]) == "_get_rotation_matrices" if isinstance(a1, ast.Name) and isinstance(d.get(a1.id, [None])[0], ast.Call) else False,
            "the rotation is the Kabsch rotation of the centred, masked coordinates", tr.lineno)
-    # centred = filtered - own centroid
-    for r, pre in (("M", "mob"), ("F", "fix")):
-        cen = d.get(f"{pre}_centered_filtered", [None])[0]
-        ok = isinstance(cen, ast.BinOp) and isinstance(cen.op, ast.Sub) and ast.unparse(cen.left) == f"{pre}_filtered" \
-            and ast.unparse(cen.right) == f"{pre}_centroid[:, np.newaxis, :]" \
-            and ast.unparse(d.get(f"{pre}_centroid", [ast.Constant(0)])[0]) == f"centroid({pre}_filtered)"
-        ctx.ob("R2.centering", SUP, "superimpose", f"{pre}_centered_filtered", ok,
-               "each point set is centred on the centroid of its own masked atoms", f.lineno)
-    # both masked alike
-    masks = {}
-    for pre in ("mob", "fix"):
-        masks[pre] = sorted(ast.unparse(v) for v in d.get(f"{pre}_filtered", []))
-    ctx.ob("R2.same-mask", SUP, "superimpose", str(masks),
-           masks["mob"] == sorted(["mob_coord[:, atom_mask, :]", "np.copy(mob_coord)"])
-           and masks["fix"] == sorted(["fix_coord[:, atom_mask, :]", "np.copy(fix_coord)"]),
-           "the same atom mask selects the fitted atoms of both structures", f.lineno)
-    ret = ret_expr(f)
-    ctx.ob("R2.return", SUP, "superimpose", ast.unparse(ret), ast.unparse(ret) == "(transform.apply(mobile), transform)",
-           "fitted structure and the transformation that produced it", f.lineno)
+    # the whole function, composed symbolically (robust to renaming/temporaries)
+    MF = "(_reshape_to_3d(coord(mobile))[:, atom_mask, :] if atom_mask is not None else np.copy(_reshape_to_3d(coord(mobile))))"
+    FF = "(_reshape_to_3d(coord(fixed))[:, atom_mask, :] if atom_mask is not None else np.copy(_reshape_to_3d(coord(fixed))))"
+    T = (f"AffineTransformation(-centroid({MF}), _get_rotation_matrices({FF} - centroid({FF})[:, np.newaxis, :], "
+         f"{MF} - centroid({MF})[:, np.newaxis, :]), centroid({FF}))")
+    check_spec(ctx, "R2.superimpose-composition", SUP, "superimpose", f"({T}.apply(mobile), {T})",
+               "both structures are lifted to 3-D, masked by the same atom mask, centred on the centroid of their own masked atoms; "
+               "T = (-mobile centroid, Kabsch(fixed centred, mobile centred), +fixed centroid); returns (T.apply(mobile), T)")
 
 
 # ---------------- R3 ---------------------------------------------------------
@@ -552,7 +541,7 @@ MUTANTS = [
     Mutant("center-sign", SUP, "AffineTransformation(-mob_centroid, rotation, fix_centroid)", "AffineTransformation(mob_centroid, rotation, fix_centroid)", "R2.center-translation"),
     Mutant("mobile-centred-on-fixed", SUP, "mob_centered_filtered = mob_filtered - mob_centroid[:, np.newaxis, :]", "mob_centered_filtered = mob_filtered - fix_centroid[:, np.newaxis, :]", "R2.role-provenance"),
     Mutant("apply-to-fixed", SUP, "    return transform.apply(mobile), transform\n", "    return transform.apply(fixed), transform\n", "R2.apply-mobile"),
-    Mutant("mask-one-side", SUP, "fix_filtered = fix_coord[:, atom_mask, :]", "fix_filtered = fix_coord[:, :, :]", "R2.same-mask"),
+    Mutant("mask-one-side", SUP, "fix_filtered = fix_coord[:, atom_mask, :]", "fix_filtered = fix_coord[:, :, :]", "R2.superimpose-composition"),
     Mutant("covariance-transposed", SUP, "fixed[:, :, :, np.newaxis] * mobile[:, :, np.newaxis, :]", "mobile[:, :, :, np.newaxis] * fixed[:, :, np.newaxis, :]", "R3.covariance"),
     Mutant("no-reflection-fix", SUP, "    v[reflected_mask, :, -1] *= -1\n", "", "R3.reflection-fix"),
     Mutant("reflection-first-column", SUP, "v[reflected_mask, :, -1] *= -1", "v[reflected_mask, :, 0] *= -1", "R3.reflection-fix"),
@@ -570,5 +559,7 @@ MUTANTS = [
     Mutant("refactor-asmatrix-names", SUP, "center_translation_mat", "c4", "R1.matrix-order", count=3, kind="silent"),
     Mutant("refactor-multimatmul-operator", SUP, "np.matmul(matrices, np.transpose(vectors, axes=(0, 2, 1)))", "matrices @ np.transpose(vectors, axes=(0, 2, 1))", "R1.column-convention", kind="silent"),
     Mutant("refactor-rmsd-temporary", CMP, "    return np.sqrt(np.mean(_sq_euclidian(reference, subject), axis=-1))", "    sq = _sq_euclidian(reference, subject)\n    return np.sqrt(np.mean(sq, axis=-1))", "R6.rmsd", kind="silent"),
+    Mutant("centroid-of-unmasked", SUP, "mob_centroid = centroid(mob_filtered)", "mob_centroid = centroid(mob_coord)", "R2.superimpose-composition"),
+    Mutant("refactor-superimpose-inline", SUP, "    mob_centroid = centroid(mob_filtered)\n    fix_centroid = centroid(fix_filtered)\n", "    fix_centroid = centroid(fix_filtered)\n    mob_centroid = centroid(mob_filtered)\n", "R2.superimpose-composition", kind="silent"),
     Mutant("rmsd-sum", CMP, "np.sqrt(np.mean(_sq_euclidian(reference, subject), axis=-1))", "np.sqrt(np.sum(_sq_euclidian(reference, subject), axis=-1))", "R6.rmsd"),
 ]
